@@ -306,7 +306,7 @@ func OpTable(r *rand.Rand) *spec.Grammar {
 	g := &spec.Grammar{}
 	g.NTs = []spec.NT{{Name: "E", Tag: "s"}}
 	nl := 1 + r.Intn(6)
-	ops := []byte("+-*/=<>&^~#@!?")
+	ops := []byte("+-*/=<>&^~#@!?%|$\"{}:;")
 	r.Shuffle(len(ops), func(i, j int) { ops[i], ops[j] = ops[j], ops[i] })
 	oi := 0
 	num := len(g.Tokens)
@@ -369,7 +369,11 @@ func OpTable(r *rand.Rand) *spec.Grammar {
 		}
 		usedPrefix[ti] = true
 		lv := levelTok[r.Intn(len(levelTok))]
-		g.Rules = append(g.Rules, spec.Rule{Lhs: 0, Rhs: []spec.Sym{{T: true, I: ti}, E}, Prec: lv[0]})
+		pt := lv[0]
+		if r.Intn(6) == 0 {
+			pt = num // %prec NUM: a token without a level takes the rule's precedence away
+		}
+		g.Rules = append(g.Rules, spec.Rule{Lhs: 0, Rhs: []spec.Sym{{T: true, I: ti}, E}, Prec: pt})
 	}
 	g.Rules = append(g.Rules, spec.Rule{Lhs: 0, Rhs: []spec.Sym{{T: true, I: lp}, E, {T: true, I: rp}}, Prec: -1})
 	g.Rules = append(g.Rules, spec.Rule{Lhs: 0, Rhs: []spec.Sym{{T: true, I: num}}, Prec: -1})
@@ -611,6 +615,22 @@ func rich(r *rand.Rand, c RichCfg) *spec.Grammar {
 			if len(g.Precs) > 0 && r.Intn(5) == 0 {
 				pl := g.Precs[r.Intn(len(g.Precs))]
 				ru.Prec = pl.Toks[r.Intn(len(pl.Toks))]
+				if r.Intn(4) == 0 {
+					// %prec naming a declared token that is on no precedence line: the rule then has
+					// no precedence at all (as in yacc), whatever its own terminals carry
+					inPrec := map[int]bool{}
+					for _, l := range g.Precs {
+						for _, t := range l.Toks {
+							inPrec[t] = true
+						}
+					}
+					for t := range g.Tokens {
+						if !inPrec[t] && g.Tokens[t].Decl == "token" && g.Tokens[t].Num != -1 {
+							ru.Prec = t
+							break
+						}
+					}
+				}
 			}
 			g.Rules = append(g.Rules, ru)
 		}
@@ -1150,6 +1170,89 @@ func HugeN(r *rand.Rand, n int) *spec.Grammar {
 	}
 	g.DefaultActs()
 	return g
+}
+
+// Optionals produces declaration-like grammars made of optional parts: nullable
+// nonterminals, groups that are sequences of nullable nonterminals (nested one
+// level), and items in which such groups follow nonterminals and precede
+// terminals, inside a left-recursive list. States with several transitions on
+// nullable nonterminals and long reads/includes chains are the point.
+func Optionals(r *rand.Rand) *spec.Grammar {
+	for try := 0; ; try++ {
+		g := &spec.Grammar{}
+		nT := 5 + r.Intn(5)
+		for i := 0; i < nT; i++ {
+			g.Tokens = append(g.Tokens, spec.Token{Name: fmt.Sprintf("T%c", 'a'+i), Decl: "token", Tag: "s"})
+		}
+		T := func(i int) spec.Sym { return spec.Sym{T: true, I: i} }
+		N := func(i int) spec.Sym { return spec.Sym{I: i} }
+		nt := func(name string) int {
+			g.NTs = append(g.NTs, spec.NT{Name: name, Tag: "s"})
+			return len(g.NTs) - 1
+		}
+		add := func(lhs int, rhs ...spec.Sym) {
+			g.Rules = append(g.Rules, spec.Rule{Lhs: lhs, Rhs: rhs, Prec: -1})
+		}
+		body, list, item := nt("Body"), nt("List"), nt("Item")
+		nOpt := 2 + r.Intn(4)
+		var opts []int
+		for i := 0; i < nOpt; i++ {
+			o := nt(fmt.Sprintf("Opt%c", 'A'+i))
+			opts = append(opts, o)
+		}
+		nGrp := 1 + r.Intn(3)
+		var grps []int
+		for i := 0; i < nGrp; i++ {
+			grps = append(grps, nt(fmt.Sprintf("Grp%c", 'A'+i)))
+		}
+		open, close := T(0), T(1)
+		if r.Intn(2) == 0 {
+			add(body, open, N(list), close)
+		} else {
+			add(body, N(list))
+		}
+		add(list)
+		add(list, N(list), N(item))
+		for i, o := range opts {
+			add(o)
+			if r.Intn(4) == 0 && i > 0 {
+				add(o, T(2+r.Intn(nT-2)), N(opts[r.Intn(i)]))
+			} else {
+				add(o, T(2+r.Intn(nT-2)))
+			}
+		}
+		for i, gr := range grps {
+			var rhs []spec.Sym
+			for k := 0; k < 2+r.Intn(2); k++ {
+				if i > 0 && r.Intn(3) == 0 {
+					rhs = append(rhs, N(grps[r.Intn(i)]))
+				} else {
+					rhs = append(rhs, N(opts[r.Intn(len(opts))]))
+				}
+			}
+			add(gr, rhs...)
+		}
+		for a := 0; a < 1+r.Intn(3); a++ {
+			var rhs []spec.Sym
+			for k := 0; k < 1+r.Intn(3); k++ {
+				switch r.Intn(3) {
+				case 0:
+					rhs = append(rhs, N(opts[r.Intn(len(opts))]))
+				default:
+					rhs = append(rhs, N(grps[r.Intn(len(grps))]))
+				}
+			}
+			rhs = append(rhs, T(2+r.Intn(nT-2)))
+			if r.Intn(2) == 0 {
+				rhs = append(rhs, N(opts[r.Intn(len(opts))]), T(2+r.Intn(nT-2)))
+			}
+			add(item, rhs...)
+		}
+		g.DefaultActs()
+		if Usable(g) {
+			return g
+		}
+	}
 }
 
 // Ladder produces deep dependency chains: 40-300 nonterminals, each of which
